@@ -26,6 +26,7 @@ REQUIRED_EVENTS = ["sessions", "hostile_messages_injected", "trailing_requests_a
                    "tcp_sessions", "tty_sessions", "direct_sessions"]
 
 KINDS = ["Text", "Number", "Switch", "Light", "BLOB"]
+QUICK_SHARDS = 4
 
 
 def make_spec():
